@@ -597,5 +597,83 @@ inline std::vector<OSample> oracle_samples(GeoOracle const& o, SD3 const& lo, SD
     return out;
 }
 
+//! Exactly degenerate interior points of the stored surfaces: sphere centres and points on the
+//! axis of (centred or general axis-aligned) cylinders, of every universe instance, in the
+//! global frame.  The gradient of the surface vanishes there (no unit normal exists), which is a
+//! special branch of the safety calculation; the points are ordinary interior points (a pencil
+//! beam along the axis of a detector barrel travels on such an axis).
+struct ODegenerate
+{
+    SD3 p{};
+    int universe{-1}, surface{-1};
+    bool axis{false};  // false: sphere centre
+};
+inline std::vector<ODegenerate>
+degenerate_points(GeoOracle const& o, SD3 const& lo, SD3 const& hi, double scale, size_t per_axis = 3)
+{
+    using ST = celeritas::SurfaceType;
+    std::vector<ODegenerate> out;
+    auto push = [&](OInstance const& in, P3 const& local, int u, int si, bool axis) {
+        ODegenerate d;
+        d.p = in.up(local);
+        for (int a = 0; a < 3; ++a)
+            if (!(d.p[a] > lo[a] && d.p[a] < hi[a]))
+                return;
+        for (auto const& e : out)
+            if (std::fabs(e.p[0] - d.p[0]) + std::fabs(e.p[1] - d.p[1]) + std::fabs(e.p[2] - d.p[2])
+                < 1e-9 * scale)
+                return;
+        d.universe = u;
+        d.surface = si;
+        d.axis = axis;
+        out.push_back(d);
+    };
+    for (OInstance const& in : enumerate_instances(o))
+    {
+        OUniverse const& u = o.universe(in.universe);
+        if (u.is_array)
+            continue;
+        std::array<std::vector<LD>, 3> cc;
+        critical_coords(u, cc);
+        for (size_t si = 0; si < u.surfaces.size(); ++si)
+        {
+            OSurface const& s = u.surfaces[si];
+            switch (s.type)
+            {
+                case ST::sc: push(in, P3{0, 0, 0}, in.universe, int(si), false); break;
+                case ST::s: push(in, P3{s.d[0], s.d[1], s.d[2]}, in.universe, int(si), false); break;
+                case ST::cxc:
+                case ST::cyc:
+                case ST::czc:
+                case ST::cx:
+                case ST::cy:
+                case ST::cz: {
+                    bool centred = s.type == ST::cxc || s.type == ST::cyc || s.type == ST::czc;
+                    int a = int(s.type) - int(centred ? ST::cxc : ST::cx);
+                    int uu = (a == 0) ? 1 : 0, vv = (a == 2) ? 1 : 2;
+                    // a few positions along the axis: inside gaps of that axis' critical coordinates
+                    auto g = gap_points(cc[a], 0.0173, -0.25 * scale, 0.25 * scale);
+                    size_t stride = std::max<size_t>(1, g.size() / per_axis);
+                    size_t cnt = 0;
+                    for (size_t i = stride / 2; i < g.size() && cnt < per_axis; i += stride, ++cnt)
+                    {
+                        P3 q = {0, 0, 0};
+                        q[a] = g[i];
+                        if (!centred)
+                        {
+                            q[uu] = s.d[0];
+                            q[vv] = s.d[1];
+                        }
+                        push(in, q, in.universe, int(si), true);
+                    }
+                    break;
+                }
+                default: break;
+            }
+        }
+    }
+    return out;
+}
+
 //---------------------------------------------------------------------------//
 }  // namespace vf
